@@ -168,6 +168,9 @@ def run(prog, rep, tier, cfg):
         if callee_is('state::State::add_locked_funds')(c):
             X.arg_has('K10', 'constructor:deposit-vests', c, 3, ['C:calculate_create_miner_deposit'], 'the creation deposit is locked')
             X.arg_has('K10', 'constructor:vest-spec', c, 4, ['K:REWARD_VESTING_SPEC'], 'with the reward vesting spec', narrow=False)
+    # ---- running totals (amounts, power, datacap) accumulated in loops keep their earlier contributions
+    X.accumulator_integrity('K12', 'running-totals', ['fil_actor_miner'], 'running totals of amounts')
+
 
 
 def eval_const_expr(prog, f, adt, field):
